@@ -4723,3 +4723,50 @@ Qed.
 
 End C14c.
 
+
+(* PART 18: the hypotheses of the soundness theorems are satisfiable: a computed history *)
+
+(* two peripherals (7 is added at set-up, 9 later by add()), max_retry_limit 1; the history has a global control
+   broadcast, bring-up requests, an accepted diagnostics reply (Online, the cycle completes), take_last_events,
+   a time-out with retransmission, a request dropped by the FDL, user calls, add() between requests, the Offline
+   event after 1 + 1 transmissions, probes of both peripherals, a completed cycle, a reply that is not accepted
+   and two environment steps *)
+Definition ex_pa : params := mkParams 2 B19200 100 32436 10 126 1 11 None.
+Definition ex_opts : poptions := mkOpts 4660 false false 0 100 false (Some [170]) (Some [17]).
+Definition ex_conf : conf :=
+  mkConf ex_pa 256 2 false true
+    [mkPconf None false 7 ex_opts 1 1 0; mkPconf None true 9 ex_opts 0 0 0]
+    [slave_new 7 4660 [17] 1 1].
+Definition ex_diag : bytes :=
+  frame_spec (mkHeader 2 7 (Some 62) (Some 60) (FcResponse RsSlave StDataLow)) [0; 0; 0; 2; 18; 52].
+Definition ex_ins : list tr_in :=
+  [InEnter OpOperate; InTx 0 false; InTx 10 false; InRx 20 7 ex_diag; InTake; InTx 30 false; InTx 35 false; InTo 40 7;
+   InTx 50 false; InAbandon; InReqDiag 0; InWriteQ 0 [5]; InAdd 1; InTx 60 false; InTx 70 false; InTo 80 9; InTx 90 false;
+   InTx 100 false; InRx 110 7 [229]; InTx 120 false; InSlave 0 [229]; InClean].
+
+Lemma ex_conf_ok : conf_ok ex_conf.
+Proof.
+  constructor; try reflexivity.
+  - unfold ex_conf, ex_pa. cbn. lia.
+  - intros k pc i Hk Hs. destruct k as [|[|k]]; cbn in Hk; try (destruct k; discriminate Hk);
+      inversion Hk; subst pc; discriminate Hs.
+Qed.
+
+Lemma oracle_sound_example :
+  conf_ok ex_conf /\
+  exists s0 s' tr, init_sys ex_conf = Ok s0 /\ model_run s0 ex_ins = Ok (s', tr) /\
+    contract_ok ex_conf tr = true /\ driver_ok (sy_handles s0) tr = true /\ length tr = 22%nat /\
+    map step_event tr = [None; None; None; Some (7, EvOnline); None; None; None; None; None; None; None; None; None;
+                         Some (7, EvOffline); None; None; None; None; None; None; None; None] /\
+    map step_cc tr = [false; false; false; true; false; false; false; false; false; false; false; false; false; false;
+                      false; false; true; false; false; false; false; false].
+Proof.
+  split; [exact ex_conf_ok|].
+  destruct (init_sys ex_conf) as [s0| |] eqn:E0; try (vm_compute in E0; discriminate E0).
+  destruct (model_run s0 ex_ins) as [[s' tr]| |] eqn:E1.
+  - exists s0, s', tr. split; [reflexivity|]. split; [exact E1|].
+    vm_compute in E0. inversion E0; subst s0. vm_compute in E1. inversion E1; subst tr.
+    repeat split; vm_compute; reflexivity.
+  - exfalso. vm_compute in E0. inversion E0; subst s0. vm_compute in E1. discriminate E1.
+  - exfalso. vm_compute in E0. inversion E0; subst s0. vm_compute in E1. discriminate E1.
+Qed.
